@@ -80,24 +80,33 @@ From Ygm Require Import Cache.
 Local Open Scope Z_scope.
 Inductive citem := CM (k v : Z) (obs : option (Z * Z)) (re : list (Z * Z * option (Z * Z))) | CH (k v : Z) (obs : option (Z * Z)) | CBB | CBE.
 Definition oeq (a b : option (Z * Z)) := match a, b with None, None => true | Some (k, v), Some (k2, v2) => (k =? k2) && (v =? v2) | _, _ => false end.
-Fixpoint inner (n : Z) (re : list (Z * Z * option (Z * Z))) (c : cst) : option cst :=
+Definition mem (x : Z) (l : list Z) := existsb (Z.eqb x) l.
+Definition remove (x : Z) (l : list Z) := filter (fun y => negb (y =? x)) l.
+(* the handler contributions that re-enter an eviction send, one by one; a slot in [unc] may have been flushed since its last
+   observed operation (both possibilities are tried) *)
+Fixpoint inner (n : Z) (re : list (Z * Z * option (Z * Z))) (c : cst) (unc : list Z) : option (cst * list Z) :=
   match re with
-  | [] => Some c
-  | (k, v, obs) :: t => let c' := contribute_inner n (k, v) c in if oeq (slots c' (slot_of n k)) obs then inner n t c' else None
+  | [] => Some (c, unc)
+  | (k, v, obs) :: t =>
+      let s := slot_of n k in
+      let c' := contribute_inner n (k, v) c in
+      if oeq (slots c' s) obs then inner n t c' (remove s unc)
+      else if mem s unc then
+        let c'' := contribute_inner n (k, v) (set_slot s None c) in
+        if oeq (slots c'' s) obs then inner n t c'' (remove s unc) else None
+      else None
   end.
 (* one main-context operation with its re-entry; contribute n kv re c = fold_left contribute_inner re (contribute n kv [] c) when the
    contribution evicts (Cache.contribute_split); without an eviction nothing is sent, so nothing can re-enter *)
-Definition do_main (n k v : Z) (obs : option (Z * Z)) (re : list (Z * Z * option (Z * Z))) (c : cst) : option cst :=
+Definition do_main (n k v : Z) (obs : option (Z * Z)) (re : list (Z * Z * option (Z * Z))) (c : cst) (unc : list Z) : option (cst * list Z) :=
   let c1 := contribute n (k, v) [] c in
   if negb (evicts n (k, v) c) && negb (match re with [] => true | _ => false end) then None else
-  match inner n re c1 with
-  | Some c2 => if oeq (slots c2 (slot_of n k)) obs then Some c2 else None
+  match inner n re c1 unc with
+  | Some (c2, unc2) => if oeq (slots c2 (slot_of n k)) obs then Some (c2, unc2) else None
   | None => None
   end.
 Definition do_handler (n k v : Z) (obs : option (Z * Z)) (c : cst) : option cst :=
   let c' := contribute_inner n (k, v) c in if oeq (slots c' (slot_of n k)) obs then Some c' else None.
-Definition mem (x : Z) (l : list Z) := existsb (Z.eqb x) l.
-Definition remove (x : Z) (l : list Z) := filter (fun y => negb (y =? x)) l.
 (* state: the model cache; phase = inside BB..BE; unc = slots that flush_all may have emptied since their last observed operation;
    touched = slots operated on since BB *)
 Fixpoint ccheck (n : Z) (l : list citem) (c : cst) (phase : bool) (unc touched : list Z) (i : nat) : option nat :=
@@ -108,12 +117,12 @@ Fixpoint ccheck (n : Z) (l : list citem) (c : cst) (phase : bool) (unc touched :
       ccheck n t {| slots := fun s => if mem s touched then slots c s else None; sent := sent c |} false touched [] (S i)
   | CM k v obs re :: t =>
       let s := slot_of n k in
-      match do_main n k v obs re c with
-      | Some c' => ccheck n t c' phase (remove s unc) touched (S i)
+      match do_main n k v obs re c (remove s unc) with
+      | Some (c', unc') => ccheck n t c' phase unc' touched (S i)
       | None =>
           if phase || mem s unc then
-            match do_main n k v obs re (set_slot s None c) with
-            | Some c' => ccheck n t c' phase (remove s unc) touched (S i)
+            match do_main n k v obs re (set_slot s None c) (remove s unc) with
+            | Some (c', unc') => ccheck n t c' phase unc' touched (S i)
             | None => Some i
             end
           else Some i
